@@ -17,7 +17,7 @@ import (
 
 // Step is one action of the scripted client / handler schedule.
 type Step struct {
-	Op     string // send | complete | flush | idle
+	Op     string // send | complete | flush | idle | temperr
 	NoWait bool   // do not wait for the step's effect before the next step (pipelining / bursts)
 
 	// send
@@ -381,7 +381,13 @@ func (e *engine) roundTrip() error {
 	e.byTag[r.tag] = r
 	e.dispatched++
 	e.tracef("round trip on tag %d", m.Tag)
-	e.p.Send(&m)
+	sent := make(chan error, 1)
+	go func() { sent <- e.p.Send(&m) }()
+	select {
+	case <-sent:
+	case <-time.After(waitBound):
+		return e.fail("the server no longer reads requests: a %s frame could not be handed over for %v", refwire.KindName[m.Kind], waitBound)
+	}
 	if err := e.barrier(); err != nil {
 		return err
 	}
@@ -452,6 +458,21 @@ func RunScript(c ScriptCase, flushProperty bool) harn.Result {
 	}
 	for si, st := range steps {
 		switch st.Op {
+		case "temperr":
+			// the server's next Read fails once with a temporary (non-timeout) error: not a failure of the connection
+			if pending {
+				if err := e.barrier(); err != nil {
+					return harn.Result{Err: err}
+				}
+				pending = false
+			}
+			e.tracef("the server's read fails once with a temporary error")
+			b.TempReadErrOnce()
+			time.Sleep(200 * time.Microsecond)
+			e.classes["temporary_read_error"] = true
+			if err := e.roundTrip(); err != nil {
+				return harn.Result{Err: err}
+			}
 		case "idle":
 			if pending {
 				if err := e.barrier(); err != nil {
